@@ -16,7 +16,7 @@ BIN = "vh_vm"
 # property -> recorder parts (each part = one driver in harness/src/vm/drivers.rs)
 PARTS = {
     "C21": ["alu"],
-    "C24": ["mem", "prog", "fuzz"],
+    "C24": ["mem", "prog", "fuzz", "calls"],
     "C25": ["flow", "prog"],
     "C26": ["prog", "gas", "calls"],
     "C34": ["calls"],
